@@ -69,7 +69,7 @@ Qed.
 Theorem preestablished_refuses_acse s d e : s < 13 -> e_kind e < 29 -> proof e < 3 ->
   is_acse d (e_kind e) = true -> step true s d e = (Err EPreEst, s).
 Proof.
-  intros Hs Hk Hp Ha. destruct d; cbn [step]; unfold assoc_send, assoc_recv; cbn [is_acse] in Ha.
+  intros Hs Hk Hp Ha. destruct d; cbn [step]; unfold assoc_send, assoc_recv, assoc_recv_raw; cbn [is_acse] in Ha.
   - replace ((e_kind e =? E_RLRQ) || (e_kind e =? E_AARQ)) with true; [reflexivity|].
     unfold E_RLRQ, E_AARQ. rewrite orb_comm. symmetry. exact Ha.
   - unfold E_AARE, E_RLRE. rewrite Ha. reflexivity.
